@@ -308,3 +308,19 @@ func OverlapGroup(txs []TxDesc, i, j int, shape string, sameExec bool, acctKey [
 	}
 	txs[j].ExecOps = append(ops, txs[j].ExecOps...)
 }
+
+// Balance reads the committed balance of a coins account key in base state bi straight from the store.
+func (w *World) Balance(bi int, acctKey []byte) int64 {
+	vals, err := w.N.Mock.GetAPI().StoreGet(&types.StoreGet{StateHash: w.Bases[bi].Block.StateHash, Keys: [][]byte{acctKey}})
+	if err != nil {
+		panic(err)
+	}
+	if len(vals.Values) == 0 || len(vals.Values[0]) == 0 {
+		return 0
+	}
+	var acc types.Account
+	if err := types.Decode(vals.Values[0], &acc); err != nil {
+		panic(err)
+	}
+	return acc.Balance
+}
